@@ -14,6 +14,7 @@ PLAN = {
     "C09": dict(families=[("comp", 30, 300)], oracle=lambda h: [f for f in T.oracle_components(h) if f[0] == "C09"],
                 slices=["comp"], ref="§7 C09"),
     "C01": dict(families=[("ent", 40, 400)], oracle=lambda h: T.oracle_entities(h), slices=["ent"], ref="§7 C01"),
+    "C05": dict(families=[("parent", 36, 400)], oracle=lambda h: T.oracle_parents(h), slices=["parent"], ref="§7 C05"),
     "C04": dict(families=[("filter", 30, 300)], oracle=lambda h: T.filter_checks(h)[1], slices=["filter"], ref="§7 C04"),
     "C17": dict(families=[("fix", 30, 300)],
                 oracle=lambda h: T.fix_cases(h, False)[1] + [("C17",) + f[1:] for f in T.oracle_components(h) if f[0] == "C02"],
@@ -38,6 +39,9 @@ def run_family(family, seed, count, tier):
 
 
 def slice_lines(h, kind, flags):
+    if kind == "parent":
+        for inst, lines, meta in T.parent_instances(h):
+            yield inst, lines, meta
     if kind == "ent":
         for inst, lines, meta in T.ent_instances(h):
             yield inst, lines, meta
